@@ -14,7 +14,7 @@ from ..snap import safe_call
 
 ID = "C18"
 RULE = ("Split cases: n=1..60 rows carrying a unique id in column 0 (duplicated feature rows and labels allowed), percentage in {0,1,random,k/n}, "
-        "random seeds, the global numpy RNG disturbed before the call: split / split_with_index outputs partition the rows, labels (and indices) "
+        "random seeds (0 and 1 included), the global numpy RNG disturbed before the call: split / split_with_index outputs partition the rows, labels (and indices) "
         "follow their rows, |first|=floor(n*p), same seed => same outputs, merge gives the input back as a multiset. Convert cases: the harness "
         "writes an OPF binary (<iii header, <ii + f floats per record; arbitrary ids, labels 1..K, float32 features incl. denormal/huge values), "
         "runs opf2txt/opf2csv/opf2json, load_*, parse_loader and Subgraph(from_file=...): features == stored float32 values, labels == stored-1, "
@@ -28,7 +28,7 @@ BUDGET = {
     "quick": {"cases": 4000, "seconds": 40, "shards": 8},
     "thorough": {"cases": 80000, "seconds": 420, "shards": 16},
 }
-REQUIRED_OBS = ["split_checked", "split_with_index_checked", "merge_checked", "determinism_checked", "convert_checked", "format:txt", "format:csv",
+REQUIRED_OBS = ["seed_zero_cases", "split_checked", "split_with_index_checked", "merge_checked", "determinism_checked", "convert_checked", "format:txt", "format:csv",
                 "format:json", "subgraph_from_file_checked", "nonsequential_rejected", "p_extreme"]
 MIN_NONTRIVIAL = 300
 
@@ -42,7 +42,7 @@ def generate(rng, tier, idx):
         Y = rng.integers(0, K, size=n)
         r = rng.random()
         p = 0.0 if r < 0.08 else (1.0 if r < 0.16 else (float(rng.integers(0, n + 1)) / n if r < 0.4 else float(rng.random())))
-        return {"kind": "split", "F": F.tolist(), "Y": [int(v) for v in Y], "p": p, "seed": int(rng.integers(0, 2 ** 31 - 1)),
+        return {"kind": "split", "F": F.tolist(), "Y": [int(v) for v in Y], "p": p, "seed": int(rng.choice([0, 0, 1, int(rng.integers(0, 2 ** 31 - 1)), int(rng.integers(0, 2 ** 31 - 1))])),
                 "noise": int(rng.integers(0, 1000))}
     n = int(rng.integers(2, 40))
     f = int(rng.integers(1, 7))
@@ -151,6 +151,8 @@ def _split(case, res):
         return res
     if p in (0.0, 1.0):
         res.see("p_extreme")
+    if seed == 0:
+        res.see("seed_zero_cases")
     dup = len({tuple(r) for r in F.tolist()}) < n
     res.nontrivial = dup and 0 < p < 1 and len(set(case["Y"])) >= 3
     res.cell("split", "n" + str(min(n, 5)), "p0" if p == 0 else ("p1" if p == 1 else "pmid"))
